@@ -33,6 +33,10 @@ var constReqs = []constReq{
 // typeCheckDir parses the non-test Go files of dir and type-checks them leniently
 // (imports that cannot be resolved are ignored; constants still evaluate).
 func typeCheckDir(dir string) (*types.Package, *types.Info, *token.FileSet, []*ast.File, error) {
+	return typeCheckDirWith(dir, importer.Default())
+}
+
+func typeCheckDirWith(dir string, imp types.Importer) (*types.Package, *types.Info, *token.FileSet, []*ast.File, error) {
 	fset := token.NewFileSet()
 	matches, _ := filepath.Glob(filepath.Join(dir, "*.go"))
 	sort.Strings(matches)
@@ -61,8 +65,9 @@ func typeCheckDir(dir string) (*types.Package, *types.Info, *token.FileSet, []*a
 			files = append(files, f)
 		}
 	}
-	info := &types.Info{Defs: map[*ast.Ident]types.Object{}, Types: map[ast.Expr]types.TypeAndValue{}, Uses: map[*ast.Ident]types.Object{}}
-	conf := types.Config{Importer: importer.Default(), Error: func(error) {}, FakeImportC: true}
+	info := &types.Info{Defs: map[*ast.Ident]types.Object{}, Types: map[ast.Expr]types.TypeAndValue{}, Uses: map[*ast.Ident]types.Object{},
+		Selections: map[*ast.SelectorExpr]*types.Selection{}}
+	conf := types.Config{Importer: imp, Error: func(error) {}, FakeImportC: true}
 	pkg, _ := conf.Check(filepath.Base(dir), fset, files, info)
 	if pkg == nil {
 		return nil, nil, nil, nil, fmt.Errorf("cannot type-check %s", dir)
